@@ -2608,10 +2608,14 @@ def unravel_key(key):
 
 
 def unravel_keys(*keys):
-    """Unravels a sequence of keys."""
+    """Unravels a nested key (one-argument alias of :func:`unravel_key`, kept for bc-compatibility)."""
     if not is_compiling():
         return unravel_keys_cpp(*keys)
-    return tuple(unravel_key(key) for key in keys)
+    if len(keys) != 1:
+        raise TypeError(
+            f"unravel_keys() takes exactly one argument ({len(keys)} given)"
+        )
+    return unravel_key(keys[0])
 
 
 def unravel_key_list(keys):
